@@ -42,11 +42,12 @@ func (q *clientSegmentQueue) waitUntilSizeIsBelow(ctx context.Context, n int) bo
 	q.mutex.Lock()
 
 	for len(q.queue) > n {
+		didPull := q.didPull
 		q.mutex.Unlock()
 		verifYield("queue.wait.unlocked")
 
 		select {
-		case <-q.didPull:
+		case <-didPull:
 		case <-ctx.Done():
 			return false
 		}
